@@ -33,6 +33,11 @@ class Family:
         """what a known-finding entry is matched against"""
         return self.name
 
+    def canon(self, obs):
+        """canonical form of an observation for the model/implementation comparison (identity unless the family's
+        log contains entries whose relative order the schedule does not determine); the Spec always sees the raw one"""
+        return obs
+
     def case_line(self, args):
         return core.VL([core.VS(self.name)] + args)
 
@@ -168,7 +173,7 @@ def run_family(fam, rng, tier, exe_impl, exe_model, exe_spec):
         o = impl[i]
         cls = obs_class(o)
         res["obs_classes"][cls] = res["obs_classes"].get(cls, 0) + 1
-        if model is not None and model[i] != o:
+        if model is not None and model[i] != o and fam.canon(model[i]) != fam.canon(o):
             res["diffs"].append({"case": line, "impl": o, "model": model[i], "label": label,
                                  "spec_ok": (spec[i] if spec else None)})
         if spec is not None and spec[i].startswith('(VS "false'):
